@@ -48,7 +48,7 @@ func init() { Sites = nil }' > "$work/verifmc/sites.go"
     cp "$VERIF_ROOT/harness/go.sum.base" "${mf%.mod}.sum"
     (cd "$VERIF_ROOT/harness" && $GO build -modfile="$mf" -tags mcbuild -o "$VERIF_BUILD/mcx" ./cmd/mcx); rc=$?
     rm -f "$mf" "${mf%.mod}.sum"
-    [ -n "${VERIF_KEEP_MCREPO:-}" ] || rm -rf "$work"
+    [ -n "${VERIF_KEEP_MCREPO:-}" ] || { rm -rf "$work"; [ -n "${VERIF_SCRATCH:-}" ] || rmdir "$(dirname "$work")" 2>/dev/null; }
     exit $rc
     ;;
 esac
